@@ -64,6 +64,16 @@ pub fn gen_plan(rng: &mut Rng, focus: &str, tier: &str, case_idx: u64) -> Plan {
     else if focus == "c20" { for (i, t) in threads.iter().enumerate() {
         let room = 4096 - (t.sp_off & 4095 & !7);
         if t.kind == Kind::Block && t.at.is_none() && room >= 24 && rng.chance(1, 2) { lines.push(format!("poke {i} {} {} {}", (rng.range(1, (room as u64 - 8) / 8) * 8).min(room as u64 - 8), rng.below(2), rng.below(256) * 8)); } } }
+    // C07: regions well beyond one page, up to a MiB, lengths at and off the 256 KiB / 64 KiB marks, one ending at an unmapped page
+    let mut napp = napp;
+    if focus == "c07" && (case_idx == 1 || rng.chance(1, 4)) {
+        lines.push("anon 320 rw- 1".to_string());
+        let total = 320u64 * 4096;
+        for len in [*rng.pick(&[262_144u64, 262_145, 300_001, 65_537]), *rng.pick(&[524_288u64, 1_000_003, 1_048_576, 786_433])] {
+            let off = if rng.chance(1, 2) { total - len } else { rng.below(total - len + 1) };
+            lines.push(format!("appmem 3 {off} {len}")); napp += 1;
+        }
+    }
     let blame_late = focus == "c06" && many && !boundary && rng.chance(1, 2);
     if stack_only { return Plan { scen: Scenario { threads, lines }, blame_late: false, crash: 0, limit: None, sanitize: !low_principal, user_maps: vec![], skip: if low_principal { 5 } else { 4 }, napp }; }
     Plan { scen: Scenario { threads, lines }, blame_late, crash: if blame_late { 2 } else if force_k1 { 3 } else if focus == "c05" || focus == "c07" { rng.below(4) as u8 } else if rng.chance(1, 3) { rng.range(1, 2) as u8 } else { 0 },
